@@ -239,14 +239,26 @@ async def check_package_tickets(ctx, case):
         if out[0] != "ok":
             ctx.violation(f"resolve-raises-{type(out[1]).__name__}", f"resolving {s!r} with a resolver that answers every look-up differently {describe(out)[:300]}")
             return
-        issued = sorted(t for _k, t in world.pkg_tickets)
-        found = sorted(int(tok.value) for tok in out[1].scan_values(lambda v: hasattr(v, "type") and v.type == "CONDITION_KEY" and str(v).isdigit() and int(str(v)) >= 7001))
-        if len(issued) != case["occurrences"]:
-            ctx.violation("pairing-packages", f"{s!r} has {case['occurrences']} package occurrences, the resolver was asked {len(issued)} times")
+        key_of = {t: k for k, t in world.pkg_tickets}
+        found = [int(tok.value) for tok in out[1].scan_values(lambda v: hasattr(v, "type") and v.type == "CONDITION_KEY" and str(v).isdigit() and int(str(v)) >= 7001)]
+        what = f"{s!r}: the package resolver was asked {[(k, t) for k, t in world.pkg_tickets]} (key, answer [n]), the resolved tree contains the answers {sorted(found)} (release order {[str(x) for x in sc.order][:10]})"
+        foreign = [t for t in found if t not in key_of]
+        if foreign:
+            ctx.violation("pairing-packages", f"{what}: {foreign} were never produced")
             return
-        if found != issued:
-            ctx.violation("pairing-packages", f"{s!r}: the package resolver produced the answers {issued} (one per look-up), the resolved tree contains {found}: an answer was lost or used for another occurrence (release order {[str(x) for x in sc.order][:10]})")
-            return
+        for key, written in case["per_key"].items():
+            produced = [t for k, t in world.pkg_tickets if k == key]
+            placed = [t for t in found if key_of[t] == key]
+            # an implementation may ask once per occurrence or once per key (memo): then one answer serves all occurrences of that key
+            if len(placed) != written:
+                ctx.violation("pairing-packages", f"{what}: package {key} is written {written} time(s), {len(placed)} answers produced for it are in the tree")
+                return
+            lost = [t for t in produced if t not in placed]
+            if lost:
+                ctx.violation("pairing-packages", f"{what}: the answers {lost} produced for package {key} were lost (another answer was used in their place)")
+                return
+        if len(world.pkg_tickets) == case["occurrences"]:
+            ctx.count("package_ticket_runs_with_one_lookup_per_occurrence")
     ctx.nontrivial(["tickets", s])
 
 
@@ -275,7 +287,12 @@ def gen_ticket_case(rng):
     s = "".join(toks)
     if rng.random() < 0.4:
         s = rng.choice(["Muss ", "X", "Kann"]) + s
-    return {"s": s, "occurrences": sum(1 for a in atoms if "P" in a)}
+    per_key = {}
+    for a in atoms:
+        if "P" in a:
+            k = a[1 : a.index("P") + 1]
+            per_key[k] = per_key.get(k, 0) + 1
+    return {"s": s, "occurrences": sum(per_key.values()), "per_key": per_key}
 
 
 async def check_isolation_shipped(ctx, case):
